@@ -87,6 +87,67 @@ func (w *World) CheckIdentity(o *Obs, prop string) []Violation {
 		versions[c][obj] = append(versions[c][obj], where)
 	}
 	createdHolders := w.Created(o)
+	// Failed creation attempts and the moment each holder was completed. A holder completed
+	// INSIDE an attempt to create X that then failed keeps what that attempt handed out; the
+	// container reported the failure to whoever asked for X (an application that swallows that
+	// error and later obtains X from a new attempt is outside C01 / C03, see DESIGN.md 13).
+	type span struct{ from, to int }
+	failed := map[string][]span{}
+	doneAt := map[string]int{}
+	{
+		enter := map[string][]int{}
+		for _, c := range o.Reg {
+			id := w.instByName(c.Name)
+			if id == "" {
+				continue
+			}
+			switch c.Op {
+			case "goc-enter":
+				enter[id] = append(enter[id], c.Seq)
+			case "goc-exit":
+				from := 0
+				if n := len(enter[id]); n != 0 {
+					from = enter[id][n-1]
+					enter[id] = enter[id][:n-1]
+				}
+				if c.Err {
+					failed[id] = append(failed[id], span{from, c.Seq})
+				} else if _, ok := doneAt[id]; !ok && c.Ref != 0 {
+					doneAt[id] = c.Seq
+				}
+			}
+		}
+	}
+	// ... provided the failure was delivered to the application: the failed attempt lies inside
+	// a lookup made by an initialization callback that copes with the error
+	var tolerated []span
+	{
+		open := map[string]int{}
+		for _, e := range o.Events {
+			switch e.Kind {
+			case "init-lookup":
+				open[e.Subj+">"+e.Detail] = e.Seq
+			case "init-lookup-tolerated":
+				tolerated = append(tolerated, span{open[e.Subj+">"+e.Detail], e.Seq})
+			}
+		}
+	}
+	insideFailedAttempt := func(holder, comp string) bool {
+		d, ok := doneAt[holder]
+		if !ok {
+			return false
+		}
+		for _, s := range failed[comp] {
+			if s.from < d && d < s.to {
+				for _, t := range tolerated {
+					if t.from <= s.from && s.to <= t.to {
+						return true
+					}
+				}
+			}
+		}
+		return false
+	}
 	for _, h := range sdl.SortedKeys(o.Points) {
 		if !createdHolders[h] || w.replacedBeforeInstantiation(h) {
 			// a component the container never created: whatever its fields hold was put there
@@ -100,6 +161,10 @@ func (w *World) CheckIdentity(o *Obs, prop string) []Violation {
 					// substitute) and is substituted again around initialization: not judged,
 					// see DESIGN.md section 13. With an early substitute only, the proxy the
 					// holder received is a version like any other.
+					continue
+				}
+				if c := w.componentOf(obj); c != "" && insideFailedAttempt(h, c) {
+					o.LeftoverViews++
 					continue
 				}
 				see(obj, h+"."+f)
